@@ -75,7 +75,11 @@ pub fn plan(installed_reply: &str, evaluated: &[EvalInput]) -> Result<Vec<String
     let installed: Policies<Installed> = read_data(installed_reply)?;
     let mut ev = Policies::<Evaluated>::default();
     for (name, expr, ranges) in evaluated {
-        let filter_expr = expr.parse().map_err(|e| format!("{expr}: {e}"))?;
+        let filter_expr = match (expr.parse(), ranges) {
+            (Ok(parsed), _) => parsed,
+            (Err(_), None) => super::FilterExpr::Malformed(expr.clone()),
+            (Err(e), Some(_)) => return Err(format!("{expr}: {e}")),
+        };
         let ranges = match ranges {
             None => None,
             Some((v4, v6)) => Some((parse_ranges::<Ipv4>(v4)?, parse_ranges::<Ipv6>(v6)?)),
